@@ -6,6 +6,7 @@ package main
 // samples over the whole capacity.
 
 import (
+	"time"
 	"bufio"
 	"fmt"
 	"runtime"
@@ -216,6 +217,18 @@ func (w *World) Get(v int, i int) {
 		w.opline("get %d %d -> %s", v, i, w.res(p))
 	}
 	w.st.op("get")
+}
+
+// GC drops nothing by itself: it lets the runtime collect the headers the generator has dropped and run
+// their finalizers; every live view must read as before.
+func (w *World) GC() {
+	runtime.GC()
+	time.Sleep(time.Millisecond)
+	runtime.GC()
+	time.Sleep(time.Millisecond)
+	w.opline("gc -> ok")
+	w.st.op("gc")
+	w.Dump()
 }
 
 func (w *World) Append(dst, src int) string {
